@@ -105,7 +105,9 @@ func (state *inflate) setupDynamicHeader() error {
 		return errInvalidBlock
 	}
 
-	state.distTable.genForDists(ctx.litAndDistHuff[litLen:distLen+litLen], ctx.distCount[:], distLen)
+	if !state.distTable.genForDists(ctx.litAndDistHuff[litLen:distLen+litLen], ctx.distCount[:], distLen) {
+		return errInvalidBlock
+	}
 	err = ctx.setAndExpandLitLenHuffCode()
 	if err != nil {
 		return err
@@ -519,7 +521,9 @@ const (
 	distSymLenOffset   = smallShortCodeLenOffset
 )
 
-func (t *smallHuffCodeTable) genForDists(codes []huffCode, count []uint16, maxSymbol uint32) {
+// genForDists reports false when the (incomplete) code has more long-code groups than
+// LongCodeLookup can hold; such a header is rejected as corrupt input.
+func (t *smallHuffCodeTable) genForDists(codes []huffCode, count []uint16, maxSymbol uint32) bool {
 	var countTotal, countTotalTmp [17]uint32
 
 	for i := 2; i < 17; i++ {
@@ -532,7 +536,7 @@ func (t *smallHuffCodeTable) genForDists(codes []huffCode, count []uint16, maxSy
 		for i := range t.ShortCodeLookup {
 			t.ShortCodeLookup[i] = 0
 		}
-		return
+		return true
 	}
 	var codeList [distLen + 2]uint32 /* The +2 is for the extra codes in the static header */
 	for i, code := range codes {
@@ -596,6 +600,9 @@ func (t *smallHuffCodeTable) genForDists(codes []huffCode, count []uint16, maxSy
 				tempCodeLength++
 			}
 		}
+		if longCodeLookupLength+(1<<(maxLength-distLookupBits)) > uint32(len(t.LongCodeLookup)) {
+			return false
+		}
 		for x := longCodeLookupLength; x < longCodeLookupLength+(1<<(maxLength-distLookupBits)); x++ {
 			t.LongCodeLookup[x] = 0
 		}
@@ -620,4 +627,5 @@ func (t *smallHuffCodeTable) genForDists(codes []huffCode, count []uint16, maxSy
 			(maxLength << smallShortCodeLenOffset) | smallFlagBit)
 		longCodeLookupLength += 1 << (maxLength - distLookupBits)
 	}
+	return true
 }
